@@ -198,20 +198,36 @@ SaveFails(s, j, z, g, Dv) == /\ "Dev_SaveFailsOnDirtyEmptyCode" \in Dv
                              /\ \E a \in DOMAIN s : <<a, "code">> \in g /\ Published(j, a, z, Dv) # <<>> /\ Get(s[a], "code", "") = ""
 \* ---- comparing two projections of real accounts (trace specifications)
 DropF(o, F) == [a \in DOMAIN o |-> [f \in DOMAIN o[a] \ F |-> o[a][f]]]
-\* The deviations needed to call the projections x and y the same: every getter must agree and every root must agree,
-\* but for root differences the listed deviations explain - each only on a ghost pair (g) of its kind and, where the
-\* outcome is predictable, only with the predicted values (z = zero hash, e = hash of the empty trie):
+\* the ghost pairs of a manager that executed exactly the setter calls es = Seq([a, k, new, ..]) on fresh caches (no
+\* snapshot, no revert): the reverts-free run executes the surviving journal, the replay the published logs
+RECURSIVE GhostsOfRun(_, _)
+GhostsOfRun(es, g) == IF es = <<>> THEN g ELSE GhostsOfRun(Tail(es), GhostsAfterSet(g, Head(es).a, Head(es).k, Head(es).new))
+\* The deviations needed to call the projection x of another manager and the projection y of the manager that executed
+\* the block the same: every getter must agree and every root must agree, but for root differences the listed
+\* deviations explain - each only on a ghost pair of its kind (g = the ghost pairs of the executing manager, gx = those
+\* of the other one) and, where the outcome is predictable, only with the predicted values (z = zero hash, e = hash of
+\* the empty trie):
 \*   Dev_EmptyWriteLeavesEmptyRoot            one side has the hash of the empty trie where the other has the zero root
 \*   Dev_UndoAssetProfileKeyLeavesEmptyEntry  the asset-code roots differ (an entry "" against no entry)
+\*   Dev_UndoSuicideShallow                   the executing manager LOST an empty dirty entry the other one has (gx \ g: only
+\*                            a SetSuicide takes ghost pairs away, and one that survives takes them away on both sides, so
+\*                            this is a self-destruct that was reverted - undoSuicide does not bring the trie cache back -
+\*                            after surviving writes that left the trie empty again, e.g. SetStorageState(k,1);
+\*                            SetStorageState(k,0)): the executing manager never opens the trie and keeps the zero root, the
+\*                            other one stores the hash of the empty trie
 \* "MISMATCH" (never an allowed deviation) when nothing explains the difference.
-RootDevs(x, y, g, z, e) ==
+RootDevsX(x, y, g, gx, z, e) ==
   IF DropF(x, Roots) # DropF(y, Roots) THEN {"MISMATCH"}
   ELSE LET D  == {p \in (DOMAIN x) \X Roots : p[2] \in DOMAIN x[p[1]] /\ x[p[1]][p[2]] # y[p[1]][p[2]]}
            De == {p \in D : p \in g /\ {x[p[1]][p[2]], y[p[1]][p[2]]} = {e, z}}
            Dp == {p \in D \ De : p[2] = "rac" /\ <<p[1], "afrkey">> \in g}
-       IN (IF D \subseteq De \cup Dp THEN {} ELSE {"MISMATCH"})
+           Dl == {p \in D \ (De \cup Dp) : p \in gx \ g /\ x[p[1]][p[2]] = e /\ y[p[1]][p[2]] = z}
+       IN (IF D \subseteq De \cup Dp \cup Dl THEN {} ELSE {"MISMATCH"})
           \cup (IF De # {} THEN {"Dev_EmptyWriteLeavesEmptyRoot"} ELSE {})
           \cup (IF Dp # {} THEN {"Dev_UndoAssetProfileKeyLeavesEmptyEntry"} ELSE {})
+          \cup (IF Dl # {} THEN {"Dev_UndoSuicideShallow"} ELSE {})
+\* ... when nothing is known about the other manager's caches (gx \ g = {}: the third explanation is off)
+RootDevs(x, y, g, z, e) == RootDevsX(x, y, g, g, z, e)
 RootLogName(f) == CASE f = "rs" -> "StorageRootLog" [] f = "rac" -> "AssetCodeRootLog" [] f = "rai" -> "AssetIdRootLog" [] f = "req" -> "EquityRootLog"
 \* the published logs p without the root logs of the roots in which x and y differ
 SansDifferingRootLogs(p, x, y) ==
